@@ -268,6 +268,21 @@ def rule_ret(S):
                 if first is not None and is_call(first, cq=Y + 'thread_info::get_begin_epoch'):
                     tag_ok = root_var(f, call_recv(f, first)) == owner
                 ini = R.var_decl_init(f, owner) if owner else None
+                if ini is None and owner and f.is_lambda:
+                    # a captured variable: its definition is in the enclosing function
+                    g = f
+                    while ini is None and g.is_lambda and g.enclosing:
+                        g = facts.get(g.enclosing)
+                        ini = R.var_decl_init(g, owner)
+                    if ini is not None:
+                        from_token = any(x['k'] == 'DeclRefExpr' and (x.get('ty') or '') == 'void *' and x.get('dk') == 'parm'
+                                         for x in g.walk(ini))
+                        fname = ef.qname + ('<%s>' % ef.targs if ef.targs else '')
+                        S.ob('R-RET', fname, 'retire at ' + short_loc(nd), tag_ok and from_token,
+                             'tagged with the begin epoch of the operation\'s own session' if (tag_ok and from_token) else
+                             'retired object is not tagged with get_begin_epoch() of the session whose queue receives it '
+                             '[own epoch=%s, session from token=%s]' % (tag_ok, from_token), loc=short_loc(nd))
+                        continue
                 from_token = ini is not None and any(
                     x['k'] == 'DeclRefExpr' and (x.get('ty') or '') == 'void *' and x.get('dk') == 'parm'
                     for x in f.walk(ini))
